@@ -26,7 +26,7 @@ from ..gen.lit import str_lit
 ID = "C25"
 LEVEL = "exploration"
 BUDGET = {"quick": 20, "thorough": 240}
-FLOOR = {"quick": 600, "thorough": 1200}
+FLOOR = {"quick": 500, "thorough": 800}
 RULE = ("per case one pair x 48 inputs: nested objects (depth 1-4, keys incl. empty/unicode/punctuation but "
         "never the separator, 10 separators incl. multi-character, no empty containers; arrays of objects as "
         "leaves) for flatten/unflatten; arbitrary objects and canonical entry lists for to_entries/from_entries; "
